@@ -193,6 +193,14 @@ func c18IntFamily(c *fw.Ctx, vals []any) {
 	in := func() string { return "list " + showNums(vals) }
 	guard(c, in, func() {
 		l := at.NewList(vals...)
+		if len(vals)%5 == 3 {
+			// "any list": also one that holds itself (directly, or through an object field); these elements are not ints
+			l.Add(l)
+			l.Insert(0, at.NewObject("back", l))
+			vals = append(append([]any{"<object leading back to the list>"}, vals...), "<the list itself>")
+			c.Count("self_containing_lists")
+			c.MarkInput(in())
+		}
 		before := top(l)
 		sum, prod, mn, mx := 0, 1, 0, 0
 		have := false
